@@ -413,5 +413,16 @@ def r11_10(ctx):
          if changed else ctx.ok(construct, f.loc(c)))
 
 
+def r11_11(ctx):
+    """R11.11 (a) a `# CONFIG_OLD is not set` line is recognised for every name the writer can emit: the unset reader regex matches the
+    line shape whatever characters the name has (C02 R02.1 line shapes) - deprecated names may be lower case; (b) the `# default:`
+    marker of a skipped deprecated block does not leak to the entry after it: the marker is cleared at every entry and at the block
+    delimiters (C08 R08.2)."""
+    from . import c02, c08
+    from .common import delegate
+    delegate(ctx, c02.r02_1, lambda c: 'line shape' in c or 'normalisation' in c)
+    delegate(ctx, c08.r08_2, lambda c: True)
+
+
 def rules():
-    return [("R11.10", r11_10, 1), ("R11.9", r11_9, 1), ("R11.8", r11_8, 1), ("R11.7", r11_7, 2), ("R11.6", r11_6, 6), ("R11.1", r11_1, 7), ("R11.2", r11_2, 2), ("R11.3", r11_3, 4), ("R11.4", r11_4, 6), ("R11.5", r11_5, 3)]
+    return [("R11.11", r11_11, 4), ("R11.10", r11_10, 1), ("R11.9", r11_9, 1), ("R11.8", r11_8, 1), ("R11.7", r11_7, 2), ("R11.6", r11_6, 6), ("R11.1", r11_1, 7), ("R11.2", r11_2, 2), ("R11.3", r11_3, 4), ("R11.4", r11_4, 6), ("R11.5", r11_5, 3)]
